@@ -13,10 +13,13 @@ import (
 	"encoding/binary"
 	"encoding/json"
 	"fmt"
+	"flag"
 	"io"
+	"math/big"
 	"net"
 	"net/netip"
 	"os"
+	"os/exec"
 	"path/filepath"
 	"sort"
 	"strings"
@@ -39,16 +42,21 @@ const (
 	c10StaticRemove
 	c10Tick
 	c10Restart
+	c10Busy
 )
 
 var c10KindNames = []string{"discover", "request", "decline", "release", "static-add",
-	"static-update", "static-remove", "tick", "restart"}
+	"static-update", "static-remove", "tick", "restart", "probe-set"}
 
 // c10Op is one step of a history.  Addresses are host-order uint32, 0 = the
 // option / field is absent (sid, reqip) or unspecified (ciaddr).
 type c10Op struct {
 	Kind   int    `json:"k"`
 	Mac    uint64 `json:"mac,omitempty"`
+	// MacLen: length of the hardware address in bytes; 0 means 6.
+	MacLen int `json:"maclen,omitempty"`
+	// On, for c10Busy: the address IP starts (true) / stops answering probes.
+	On bool `json:"on,omitempty"`
 	HasSID bool   `json:"has_sid,omitempty"`
 	SID    uint32 `json:"sid,omitempty"`
 	HasReq bool   `json:"has_req,omitempty"`
@@ -96,28 +104,49 @@ func c10FromIP(ip net.IP) uint32 {
 	return binary.BigEndian.Uint32(ip4)
 }
 
-func c10MAC(m uint64) net.HardwareAddr {
-	return net.HardwareAddr{byte(m >> 40), byte(m >> 32), byte(m >> 24), byte(m >> 16), byte(m >> 8), byte(m)}
+// c10MAC builds a hardware address of n bytes (0 = 6) whose last bytes are m;
+// 20-byte addresses start with twelve 0x11 bytes.
+func c10MAC(m uint64, n int) net.HardwareAddr {
+	if n == 0 {
+		n = 6
+	}
+	h := make(net.HardwareAddr, n)
+	for i := 0; i < n && i < 8; i++ {
+		h[n-1-i] = byte(m >> (8 * i))
+	}
+	for i := 0; i < n-8; i++ {
+		h[i] = 0x11
+	}
+	return h
 }
 
-func c10FromMAC(h net.HardwareAddr) uint64 {
-	var m uint64
+func (o c10Op) hw() net.HardwareAddr { return c10MAC(o.Mac, o.MacLen) }
+
+// c10FromMAC is the model's encoding of a hardware address: the number
+// 256^len + (bytes read big-endian), in decimal.
+func c10FromMAC(h net.HardwareAddr) string {
+	b := append([]byte{1}, h...)
+	return new(big.Int).SetBytes(b).String()
+}
+
+func c10ZeroMAC(h net.HardwareAddr) bool {
 	for _, b := range h {
-		m = m<<8 | uint64(b)
+		if b != 0 {
+			return false
+		}
 	}
-	if len(h) != 6 {
-		m |= 1 << 60
-	}
-	return m
+	return len(h) > 0
 }
 
 // c10Lease is the projection of one lease.  Kind: 0 static, 1 dynamic not
 // expired, 2 dynamic expired (or never acknowledged).
 type c10Lease struct {
 	IP   uint32
-	Mac  uint64
+	Mac  string
 	Host string
 	Kind int
+	// Zero: the hardware address is all-zero (a block-listed address).
+	Zero bool
 }
 
 // c10Enc is the compact encoding of the observations of one case: addresses
@@ -182,14 +211,128 @@ type c10World struct {
 	srv   *server
 	s4    *v4Server
 	shift time.Duration
-	// icmp: the running server probes addresses.  busy() says what the probes
-	// answer: the pool of a "loop" configuration lies in 127.0.0.0/28, where
-	// every address answers an echo request, so every probed address is in use;
-	// elsewhere nothing answers.
+	// icmp: the running server probes addresses (ICMPTimeout > 0).  Only ever
+	// true when c10Probe is.  busyList() says which addresses answer.
 	icmp bool
 }
 
-func (w *c10World) busy() bool { return w.icmp && w.conf.SubLo>>24 == 127 }
+// c10Probe: the test runs in a private network namespace in which raw ICMP
+// works: the loopback interface is up, so every address of 127.0.0.0/8
+// answers an echo request; an address of another network answers exactly when
+// it has been added to the loopback interface (c10SetLo), and sending to any
+// other address fails at once (no route), which addrAvailable takes for "free".
+// Without it the server never probes (ICMPTimeout = 0) and nothing is
+// block-listed.
+var c10Probe bool
+
+// c10Lo is the set of addresses added to the loopback interface.
+var c10Lo = map[uint32]bool{}
+
+func c10SetLo(ip uint32, on bool) error {
+	if c10Lo[ip] == on {
+		return nil
+	}
+	verb := "add"
+	if !on {
+		verb = "del"
+	}
+	out, err := exec.Command("ip", "addr", verb, c10Addr(ip).String()+"/32", "dev", "lo").CombinedOutput()
+	if err != nil {
+		return fmt.Errorf("ip addr %s %s: %v: %s", verb, c10Addr(ip), err, out)
+	}
+	if on {
+		c10Lo[ip] = true
+	} else {
+		delete(c10Lo, ip)
+	}
+	return nil
+}
+
+// c10NetnsSetup brings the loopback interface of the private namespace up and
+// checks with the server's own probe that an added address answers and a
+// removed one does not.
+func c10NetnsSetup() bool {
+	if exec.Command("ip", "link", "set", "lo", "up").Run() != nil {
+		return false
+	}
+	probe := &v4Server{conf: &V4ServerConf{ICMPTimeout: c10ICMPTimeout}}
+	ip := uint32(10)<<24 | 250
+	if c10SetLo(ip, true) != nil {
+		return false
+	}
+	busy := !probe.addrAvailable(c10IP(ip))
+	if c10SetLo(ip, false) != nil {
+		return false
+	}
+	t0 := time.Now()
+	free := probe.addrAvailable(c10IP(ip))
+	loop := !probe.addrAvailable(c10IP(uint32(127)<<24 | 9))
+	return busy && free && loop && time.Since(t0) < time.Second
+}
+
+// c10ICMPTimeout (ms) is generous: an answering address answers within
+// microseconds, a free one fails at once; nothing waits for it.
+const c10ICMPTimeout = 5000
+
+// c10Reexec runs the whole test in a private network namespace (unshare -n).
+// It reports whether that happened; if not (no privilege, no unshare, raw
+// ICMP not usable) the caller runs the histories without probing.
+func c10Reexec(t *testing.T) bool {
+	dir := os.Getenv("VERIF_OUT")
+	if dir == "" || os.Getenv("VERIF_C10_NETNS") != "" || os.Getenv("VERIF_C10_NOPROBE") == "1" {
+		return false
+	}
+	exe, err := os.Executable()
+	if err != nil {
+		return false
+	}
+	if _, err = exec.LookPath("unshare"); err != nil {
+		return false
+	}
+	if _, err = exec.LookPath("ip"); err != nil {
+		return false
+	}
+	started, noprobe := filepath.Join(dir, "C10.netns-started"), filepath.Join(dir, "C10.noprobe")
+	os.Remove(started)
+	os.Remove(noprobe)
+	args := []string{"-n", exe, "-test.run", "^TestVerifC10$", "-test.count=1"}
+	if f := flag.Lookup("test.timeout"); f != nil {
+		args = append(args, "-test.timeout="+f.Value.String())
+	}
+	cmd := exec.Command("unshare", args...)
+	cmd.Env = append(os.Environ(), "VERIF_C10_NETNS=1")
+	cmd.Stdout, cmd.Stderr = os.Stdout, os.Stderr
+	err = cmd.Run()
+	_, serr := os.Stat(started)
+	_, nerr := os.Stat(noprobe)
+	os.Remove(started)
+	os.Remove(noprobe)
+	if serr != nil || nerr == nil {
+		return false
+	}
+	if err != nil {
+		t.Fatalf("C10: the run in the private network namespace failed: %v", err)
+	}
+	return true
+}
+
+// busyList: the addresses that answer the server's probe now.
+func (w *c10World) busyList() (ips []uint32) {
+	if !w.icmp {
+		return nil
+	}
+	if w.conf.SubLo>>24 == 127 {
+		for ip := w.conf.SubLo; ip <= w.conf.SubHi; ip++ {
+			ips = append(ips, ip)
+		}
+		return ips
+	}
+	for ip := range c10Lo {
+		ips = append(ips, ip)
+	}
+	sort.Slice(ips, func(i, j int) bool { return ips[i] < ips[j] })
+	return ips
+}
 
 func (w *c10World) create() {
 	cf := w.conf
@@ -206,7 +349,7 @@ func (w *c10World) create() {
 			GatewayIP:     c10Addr(cf.GW),
 			SubnetMask:    c10Addr(mask),
 			LeaseDuration: cf.LeaseSec,
-			ICMPTimeout:   map[bool]uint32{false: 0, true: 20}[w.icmp],
+			ICMPTimeout:   map[bool]uint32{false: 0, true: c10ICMPTimeout}[w.icmp],
 			dnsIPAddrs:    []netip.Addr{c10Addr(cf.Self)},
 		},
 	})
@@ -270,7 +413,7 @@ func (w *c10World) table() (ls []c10Lease) {
 		} else if l.Expiry.Before(now) {
 			k = 2
 		}
-		ls = append(ls, c10Lease{IP: c10FromAddr(l.IP), Mac: c10FromMAC(l.HWAddr), Host: l.Hostname, Kind: k})
+		ls = append(ls, c10Lease{IP: c10FromAddr(l.IP), Mac: c10FromMAC(l.HWAddr), Host: l.Hostname, Kind: k, Zero: c10ZeroMAC(l.HWAddr)})
 	}
 	return ls
 }
@@ -297,7 +440,7 @@ func (w *c10World) diskTable() (ls []c10Lease, ok bool, err error) {
 		if d.IsStatic {
 			k = 0
 		}
-		ls = append(ls, c10Lease{IP: c10FromAddr(d.IP), Mac: c10FromMAC(mac), Host: d.Hostname, Kind: k})
+		ls = append(ls, c10Lease{IP: c10FromAddr(d.IP), Mac: c10FromMAC(mac), Host: d.Hostname, Kind: k, Zero: c10ZeroMAC(mac)})
 	}
 	return ls, true, nil
 }
@@ -308,7 +451,7 @@ func c10SameLeases(a, b []c10Lease) bool {
 		return false
 	}
 	key := func(l c10Lease) string {
-		return fmt.Sprintf("%d/%d/%q/%v", l.IP, l.Mac, l.Host, l.Kind == 0)
+		return fmt.Sprintf("%d/%s/%q/%v", l.IP, l.Mac, l.Host, l.Kind == 0)
 	}
 	m := map[string]int{}
 	for _, l := range a {
@@ -362,7 +505,7 @@ func (w *c10World) message(o c10Op) (req, resp *dhcpv4.DHCPv4) {
 	default:
 		mt = dhcpv4.MessageTypeRelease
 	}
-	mods := []dhcpv4.Modifier{dhcpv4.WithMessageType(mt), dhcpv4.WithHwAddr(c10MAC(o.Mac))}
+	mods := []dhcpv4.Modifier{dhcpv4.WithMessageType(mt), dhcpv4.WithHwAddr(o.hw())}
 	if o.HasSID {
 		mods = append(mods, dhcpv4.WithOption(dhcpv4.OptServerIdentifier(c10IP(o.SID))))
 	}
@@ -407,7 +550,7 @@ func (w *c10World) apply(o c10Op) (r c10Reply, panicked string) {
 			r.YI = c10FromIP(resp.YourIPAddr)
 		}
 	case c10StaticAdd, c10StaticUpdate, c10StaticRemove:
-		l := &dhcpsvc.Lease{HWAddr: c10MAC(o.Mac), IP: c10Addr(o.IP), Hostname: o.Host, IsStatic: true}
+		l := &dhcpsvc.Lease{HWAddr: o.hw(), IP: c10Addr(o.IP), Hostname: o.Host, IsStatic: true}
 		var err error
 		switch o.Kind {
 		case c10StaticAdd:
@@ -425,10 +568,17 @@ func (w *c10World) apply(o c10Op) (r c10Reply, panicked string) {
 		w.tick(time.Duration(o.Delta) * time.Second)
 		r = c10Reply{Code: 4}
 	case c10Restart:
-		if o.ICMP != 0 {
+		if o.ICMP != 0 && c10Probe {
 			w.icmp = o.ICMP == 1
 		}
 		w.create()
+		r = c10Reply{Code: 4}
+	case c10Busy:
+		if c10Probe {
+			if err := c10SetLo(o.IP, o.On); err != nil {
+				w.t.Fatalf("C10: %v", err)
+			}
+		}
 		r = c10Reply{Code: 4}
 	}
 	return r, ""
@@ -443,7 +593,7 @@ func (w *c10World) inv() (fs []c10Fail) {
 	cf := w.conf
 	add := func(k, f string, a ...any) { fs = append(fs, c10Fail{k, fmt.Sprintf(f, a...)}) }
 	byIP := map[uint32]*dhcpsvc.Lease{}
-	byMAC := map[uint64]*dhcpsvc.Lease{}
+	byMAC := map[string]*dhcpsvc.Lease{}
 	inList := map[*dhcpsvc.Lease]bool{}
 	for _, l := range s.leases {
 		ip, mac := c10FromAddr(l.IP), c10FromMAC(l.HWAddr)
@@ -451,7 +601,7 @@ func (w *c10World) inv() (fs []c10Fail) {
 			add("inv-ip-dup", "address %s is in two leases (%s and %s)", l.IP, o.HWAddr, l.HWAddr)
 		}
 		byIP[ip] = l
-		if mac != 0 {
+		if !c10ZeroMAC(l.HWAddr) {
 			if o := byMAC[mac]; o != nil {
 				add("inv-mac-dup", "client %s has two leases (%s and %s)", l.HWAddr, o.IP, l.IP)
 			}
@@ -516,6 +666,10 @@ type c10History struct {
 	tag  string
 	next func(i int) (o c10Op, ok bool)
 	seen func(o c10Op, r c10Reply)
+	// icmp: the first server probes addresses; busy0: the addresses that
+	// answer from the start (both only with c10Probe).
+	icmp  bool
+	busy0 []uint32
 }
 
 type c10Gen struct {
@@ -525,6 +679,8 @@ type c10Gen struct {
 	// what the generator believes each client was last offered / holds
 	last map[uint64]uint32
 	genNames bool
+	// probe: the server may probe; the generator changes what answers.
+	probe bool
 }
 
 func (g *c10Gen) anyIP() uint32 {
@@ -621,13 +777,21 @@ func (g *c10Gen) op() (o c10Op) {
 	case x < 88:
 		o.Kind = c10StaticRemove
 		o.IP, o.Host = g.ipFor(mac), g.host()
-	case x < 95:
+	case x < 92 || (x < 95 && !g.probe):
 		o.Kind = c10Tick
 		o.Mac = 0
 		o.Delta = int64(g.conf.LeaseSec/4) * int64(1+g.r.Intn(5))
+	case x < 95:
+		o.Kind = c10Busy
+		o.Mac = 0
+		o.IP = g.conf.Start + uint32(g.r.Intn(int(g.conf.End-g.conf.Start+1)))
+		o.On = g.r.Chance(2, 3)
 	default:
 		o.Kind = c10Restart
 		o.Mac = 0
+		if g.probe && g.r.Chance(1, 4) {
+			o.ICMP = 1 + g.r.Intn(2)
+		}
 	}
 	return o
 }
@@ -657,7 +821,7 @@ func (e *c10Enc) reply(r c10Reply) string {
 func (e *c10Enc) op(o c10Op) string {
 	c10OptN := func(has bool, v uint32) string { return vfOpt("N", has, e.ip(v)+"%N") }
 	vfN := func(u uint64) string { return e.ip(uint32(u)) + "%N" }
-	m := fmt.Sprint(o.Mac) + "%N"
+	m := c10FromMAC(o.hw()) + "%N"
 	switch o.Kind {
 	case c10Discover:
 		return vfApp("EDiscover", m)
@@ -673,7 +837,7 @@ func (e *c10Enc) op(o c10Op) string {
 		return vfApp("EStaticUpdate", m, vfN(uint64(o.IP)), e.host(o.Host)+"%N")
 	case c10StaticRemove:
 		return vfApp("EStaticRemove", m, vfN(uint64(o.IP)), e.host(o.Host)+"%N")
-	case c10Tick:
+	case c10Tick, c10Busy:
 		return "ETick"
 	}
 	return "ERestart"
@@ -686,7 +850,19 @@ func c10Run(t *testing.T, out *vfOut, h c10History) {
 		t.Fatal(err)
 	}
 	defer os.RemoveAll(dir)
-	w := &c10World{t: t, conf: h.conf, dir: dir}
+	w := &c10World{t: t, conf: h.conf, dir: dir, icmp: h.icmp && c10Probe}
+	defer func() {
+		for ip := range c10Lo {
+			c10SetLo(ip, false)
+		}
+	}()
+	if c10Probe {
+		for _, ip := range h.busy0 {
+			if err = c10SetLo(ip, true); err != nil {
+				t.Fatalf("C10: %v", err)
+			}
+		}
+	}
 	w.create()
 	cf := h.conf
 
@@ -759,32 +935,42 @@ func c10Run(t *testing.T, out *vfOut, h c10History) {
 		} else {
 			break
 		}
+		omac := c10FromMAC(o.hw())
 		before := w.table()
 		probesBefore := w.probes(probeIPs, probeHosts)
 		hadLease := false
 		var staticIP uint32
 		for _, l := range before {
-			if l.Mac == o.Mac {
+			if l.Mac == omac {
 				hadLease = true
 			}
 		}
-		freeBefore := 0
-		for ip := cf.Start; ip <= cf.End; ip++ {
-			used := false
-			for _, l := range before {
-				if l.IP == ip {
-					used = true
-				}
+		busyIPs := w.busyList()
+		isBusy := map[uint32]bool{}
+		for _, ip := range busyIPs {
+			isBusy[ip] = true
+		}
+		freeBefore, freeQuiet, zerosBefore := 0, 0, 0
+		usedBefore := map[uint32]bool{}
+		for _, l := range before {
+			usedBefore[l.IP] = true
+			if l.Zero {
+				zerosBefore++
 			}
-			if !used {
+		}
+		for ip := cf.Start; ip <= cf.End; ip++ {
+			if !usedBefore[ip] {
 				freeBefore++
+				if !isBusy[ip] {
+					freeQuiet++
+				}
 			}
 		}
 		diskBefore, _, _ := w.diskTable()
 
 		now := w.now()
 		r, pan := w.apply(o)
-		if o.Kind == c10Tick {
+		if o.Kind == c10Tick || o.Kind == c10Busy {
 			now = w.now()
 		}
 		if pan != "" {
@@ -802,7 +988,7 @@ func c10Run(t *testing.T, out *vfOut, h c10History) {
 			fail(i, f.key, "%s", f.msg)
 		}
 		for _, l := range after {
-			if l.Mac == o.Mac && l.Kind == 0 {
+			if l.Mac == omac && l.Kind == 0 {
 				staticIP = l.IP
 			}
 		}
@@ -817,8 +1003,8 @@ func c10Run(t *testing.T, out *vfOut, h c10History) {
 			for _, l := range after {
 				if l.IP == r.YI {
 					holders++
-					if l.Mac != o.Mac {
-						fail(i, "two-holders", "%s given to %s but the table has it for %s", c10Addr(r.YI), c10MAC(o.Mac), c10MAC(l.Mac))
+					if l.Mac != omac {
+						fail(i, "two-holders", "%s given to %s but the table has it for %s", c10Addr(r.YI), o.hw(), l.Mac)
 					}
 					if l.Kind != 0 && (l.IP < cf.Start || l.IP > cf.End) {
 						fail(i, "inv-dyn-outside-pool", "dynamic address %s outside the pool given", c10Addr(r.YI))
@@ -826,7 +1012,7 @@ func c10Run(t *testing.T, out *vfOut, h c10History) {
 				}
 			}
 			if holders != 1 {
-				fail(i, "given-not-in-table", "%s given to %s, table has %d leases for it", c10Addr(r.YI), c10MAC(o.Mac), holders)
+				fail(i, "given-not-in-table", "%s given to %s, table has %d leases for it", c10Addr(r.YI), o.hw(), holders)
 			}
 		}
 		// Reservations change only through the static-lease API.
@@ -846,13 +1032,12 @@ func c10Run(t *testing.T, out *vfOut, h c10History) {
 				fail(i, "reservation-changed", "static leases changed from %v to %v without the static-lease API", sb, sa)
 			}
 		}
-		busy := w.busy()
-		if busy && (o.Kind == c10Discover || o.Kind == c10Decline) && r.Code == 1 && r.YI != 0 {
-			// Every probed address answers: only a lease the client already
-			// had may be offered.
+		if (o.Kind == c10Discover || o.Kind == c10Decline) && r.Code == 1 && r.YI != 0 && isBusy[r.YI] {
+			// An address that answers the probe may only be given to the
+			// client that held it already.
 			had := false
 			for _, l := range before {
-				if l.Mac == o.Mac && l.IP == r.YI {
+				if l.Mac == omac && l.IP == r.YI {
 					had = true
 				}
 			}
@@ -860,9 +1045,29 @@ func c10Run(t *testing.T, out *vfOut, h c10History) {
 				fail(i, "conflict-offered", "%s given although it answered the probe", c10Addr(r.YI))
 			}
 		}
-		if o.Kind == c10Discover && !hadLease && freeBefore > 0 && !busy {
-			if !(r.Code == 1 && dhcpv4.MessageType(r.MT) == dhcpv4.MessageTypeOffer && r.YI >= cf.Start && r.YI <= cf.End) {
-				fail(i, "liveness", "DISCOVER from a new client with %d free pool addresses answered %s", freeBefore, r.coq())
+		if o.Kind == c10Discover && !hadLease && freeQuiet > 0 {
+			if !(r.Code == 1 && dhcpv4.MessageType(r.MT) == dhcpv4.MessageTypeOffer && r.YI >= cf.Start && r.YI <= cf.End &&
+				!usedBefore[r.YI] && !isBusy[r.YI]) {
+				fail(i, "liveness", "DISCOVER from a new client with %d free pool addresses that do not answer the probe answered %s",
+					freeQuiet, r.coq())
+			}
+		}
+		// The leases the API reports: no block-listed entry, one holder per
+		// address, one lease per client.
+		{
+			seenIP, seenMAC := map[uint32]bool{}, map[string]bool{}
+			for _, l := range w.s4.GetLeases(LeasesAll) {
+				ip, mac := c10FromAddr(l.IP), c10FromMAC(l.HWAddr)
+				if c10ZeroMAC(l.HWAddr) && !l.IsStatic {
+					fail(i, "api-blocklisted", "GetLeases reports the block-listed %s", l.IP)
+				}
+				if seenIP[ip] {
+					fail(i, "api-ip-dup", "GetLeases reports %s twice", l.IP)
+				}
+				if seenMAC[mac] && !c10ZeroMAC(l.HWAddr) {
+					fail(i, "api-mac-dup", "GetLeases reports %s twice", l.HWAddr)
+				}
+				seenIP[ip], seenMAC[mac] = true, true
 			}
 		}
 		// The database file lists exactly the leases in memory, each once.
@@ -945,9 +1150,37 @@ func c10Run(t *testing.T, out *vfOut, h c10History) {
 			}
 		}
 		classes[cl] = true
+		zerosAfter := 0
+		for _, l := range after {
+			if l.Zero {
+				zerosAfter++
+			}
+		}
+		if (o.Kind == c10Discover || o.Kind == c10Decline) && zerosAfter > zerosBefore {
+			classes[c10KindNames[o.Kind]+"-conflict"] = true
+			if len(after) <= len(before) || freeBefore == 0 {
+				classes["conflict-recycled"] = true
+			}
+			if r.Code != 1 || r.YI == 0 {
+				classes["conflict-exhausted"] = true
+			}
+		}
+		if (o.Kind == c10Discover || o.Kind == c10Decline) && zerosAfter < zerosBefore {
+			classes["blocklist-reused"] = true
+		}
+		if o.Kind == c10Restart && zerosAfter > 0 {
+			classes["restart-blocklisted"] = true
+		}
+		if o.Kind == c10Tick && zerosAfter > 0 {
+			for j, l := range after {
+				if l.Zero && j < len(before) && before[j].Kind == 1 && l.Kind == 2 {
+					classes["blocklist-expire"] = true
+				}
+			}
+		}
 		if o.Host != "" && (o.Kind == c10Request) && r.Code == 1 {
 			for _, l := range after {
-				if l.Mac == o.Mac && l.Kind != 0 {
+				if l.Mac == omac && l.Kind != 0 {
 					nn, nerr := normalizeHostname(o.Host)
 					switch {
 					case nerr != nil || nn == "":
@@ -971,10 +1204,14 @@ func c10Run(t *testing.T, out *vfOut, h c10History) {
 		}
 		hbi, ibh := w.probeLists(enc, probeIPs, probeHosts)
 		obsStr := c10Flat(tbl) + " " + hbi + " " + ibh
+		var busyEnc []string
+		for _, ip := range busyIPs {
+			busyEnc = append(busyEnc, enc.ip(ip))
+		}
 		if obsStr == prevObs {
-			steps = append(steps, vfApp("St", vfZ(now-t0), enc.op(o), vfApp("ObS", enc.reply(r), vfBool(sameAsMem))))
+			steps = append(steps, vfApp("St", vfZ(now-t0), c10Flat(busyEnc), enc.op(o), vfApp("ObS", enc.reply(r), vfBool(sameAsMem))))
 		} else {
-			steps = append(steps, vfApp("St", vfZ(now-t0), enc.op(o), vfApp("Ob", enc.reply(r), obsStr, vfBool(sameAsMem))))
+			steps = append(steps, vfApp("St", vfZ(now-t0), c10Flat(busyEnc), enc.op(o), vfApp("Ob", enc.reply(r), obsStr, vfBool(sameAsMem))))
 		}
 		prevObs = obsStr
 		desc = append(desc, descStep{Op: o, Reply: r.coq(), Table: fmt.Sprint(sorted)})
@@ -1034,9 +1271,21 @@ func (w *c10World) probeLists(e *c10Enc, ips []uint32, hosts []string) (hbi, ibh
 }
 
 func TestVerifC10(t *testing.T) {
+	log.SetOutput(io.Discard)
+	if os.Getenv("VERIF_C10_NETNS") != "" {
+		dir := os.Getenv("VERIF_OUT")
+		os.WriteFile(filepath.Join(dir, "C10.netns-started"), nil, 0o644)
+		if !c10NetnsSetup() {
+			os.WriteFile(filepath.Join(dir, "C10.noprobe"), nil, 0o644)
+			t.Skip("C10: no usable ICMP in the private namespace")
+		}
+		c10Probe = true
+	} else if c10Reexec(t) {
+		return
+	}
 	out := vfOpen(t, "C10")
 	defer out.Close()
-	log.SetOutput(io.Discard)
+	out.Note("icmp_probe", c10Probe)
 	rnd := vfNewRand(out.Seed)
 
 	m := []uint64{1, 2, 3, 4}
@@ -1051,6 +1300,14 @@ func TestVerifC10(t *testing.T) {
 		g := &c10Gen{r: r, conf: cf, macs: m, last: map[uint64]uint32{}, genNames: os.Getenv("VERIF_C10_GENNAMES") != "0"}
 		steps := 5 + r.Intn(56)
 		h := c10History{conf: cf, tag: fmt.Sprintf("random-%d", i)}
+		// Half of the histories run with probing (when it is available), with
+		// up to three pool addresses answering from the start.
+		if pr := r.Fork(77); c10Probe && pr.Bool() {
+			g.probe, h.icmp = true, pr.Chance(4, 5)
+			for k := pr.Intn(4); k > 0; k-- {
+				h.busy0 = append(h.busy0, cf.Start+uint32(pr.Intn(int(cf.End-cf.Start+1))))
+			}
+		}
 		// The generator is told every reply, so that clients mostly ask for
 		// the address they were offered.
 		h.next = func(j int) (c10Op, bool) { return g.op(), j < steps }
@@ -1122,6 +1379,20 @@ func c10Prelude(m []uint64) (hs []c10History) {
 	add("decline-then-restart", disc(1), sel(1, s, ""), disc(2), sel(2, s+1, ""), rel(1, s), dec(2, s+1), restart)
 	add("static-add-rejected-late", disc(2), st(c10StaticAdd, 2, cf.SubHi+5, "far"), restart)
 	add("generated-name-taken", disc(1), sel(1, s, "10-0-0-5"), disc(2), sel(2, s+1, ""), restart)
+	busyOn := func(ip uint32) c10Op { return c10Op{Kind: c10Busy, IP: ip, On: true} }
+	busyOff := func(ip uint32) c10Op { return c10Op{Kind: c10Busy, IP: ip} }
+	addP := func(tag string, busy0 []uint32, ops ...c10Op) {
+		hs = append(hs, c10History{conf: cf, ops: ops, tag: tag, icmp: true, busy0: busy0})
+	}
+	addP("conflict-basic", []uint32{s}, disc(1), sel(1, s+1, "alpha"), restart, disc(2), busyOn(s+3), sel(2, s+2, "beta"),
+		c10Op{Kind: c10Restart, ICMP: 2}, busyOn(s+1), disc(1), c10Op{Kind: c10Restart, ICMP: 1})
+	addP("conflict-exhausted", []uint32{s, s + 1, s + 2}, disc(1), restart, tick(3700), busyOff(s+1), disc(1), sel(1, s+1, "a"), restart)
+	addP("conflict-recycled-named", nil, disc(1), sel(1, s, "alpha"), disc(2), sel(2, s+1, "beta"), disc(3), sel(3, s+2, "gamma"),
+		tick(3700), busyOn(s), disc(4), sel(4, s+1, "alpha"), restart)
+	addP("conflict-decline", nil, disc(1), sel(1, s, "a"), busyOn(s), busyOn(s+1), dec(1, s), restart,
+		busyOn(s+2), dec(1, s+2), disc(1))
+	addP("blocklist-reused", []uint32{s}, disc(1), sel(1, s+1, "a"), disc(2), sel(2, s+2, "b"), tick(3700), busyOff(s), disc(3),
+		sel(3, s, "c"), restart)
 	lcf := c10LoopConf(3)
 	ls := lcf.Start
 	lsel := func(mac uint64, ip uint32, host string) c10Op {
